@@ -21,6 +21,9 @@ def charRef (n : Nat) : Str := s "&#" ++ digits n ++ s ";"
 structure RenderCfg where
   v11 : Bool := false      -- XML_VERSION_1_1 instantiation
   maxChar : Nat := 0x10FFFF -- largest code point the output encoding represents (UTF-8/16: all)
+  /-- source fact (call-point translator): `writeCDATAChars` re-opens (not closes) a section before a `]]>` that
+  follows an unrepresentable character and leaves a text that ends outside a section alone (repaired source) -/
+  cdataRepaired : Bool := true
 deriving Repr, Inhabited
 
 /-- `writeDefaultEntity` -/
@@ -58,11 +61,21 @@ def attrChar (r : RenderCfg) (c : Nat) : Str :=
     | some e => e
     | none => if c = 34 then s "&quot;" else charRef c
 
-/-- `writeCDATAChars` for representable characters: `]]>` is split over two sections -/
-def cdataChars : Str → Str
-  | 93 :: 93 :: 62 :: rest => s "]]]]><![CDATA[>" ++ cdataChars rest
-  | c :: rest => c :: cdataChars rest
-  | [] => []
+/-- `writeCDATAChars` (FormatterToXMLUnicode.hpp 710-783) with the writer's `writeCDATAChar`
+(XalanOtherEncodingWriter.hpp 126-199; the UTF-8/16 writers represent everything), as written; `outside` is
+`outsideCDATA`.  A `]]>` is split over two sections; a character the encoding cannot represent closes the section
+and is written as a numeric reference outside it, the next representable character re-opens a section.
+With `fixed = false` this is the unrepaired source: after an unrepresentable character a following `]]>` writes
+the *close* string, and a text that ends outside a section writes the *open* string and no close. -/
+def cdataCharsEnc (fixed : Bool) (maxc : Nat) : Str → Bool → Str
+  | 93 :: 93 :: 62 :: rest, outside =>
+    (if outside then (if fixed then s "<![CDATA[" else s "]]>") else []) ++ s "]]]]><![CDATA[>"
+      ++ cdataCharsEnc fixed maxc rest false
+  | c :: rest, outside =>
+    if c = 10 then 10 :: cdataCharsEnc fixed maxc rest outside
+    else if c ≤ maxc then (if outside then s "<![CDATA[" else []) ++ c :: cdataCharsEnc fixed maxc rest false
+    else (if outside then [] else s "]]>") ++ charRef c ++ cdataCharsEnc fixed maxc rest true
+  | [], outside => if outside then (if fixed then [] else s "<![CDATA[") else s "]]>"
 
 def isXMLWhitespace (c : Nat) : Bool := c = 32 || c = 9 || c = 10 || c = 13
 
@@ -84,7 +97,7 @@ def Tok.render (r : RenderCfg) : Tok → Str
   | .emptyEnd sp => (if sp then s " " else []) ++ s "/>"
   | .close name => s "</" ++ name ++ s ">"
   | .text t => t.flatMap (contentChar r)
-  | .cdata t => s "<![CDATA[" ++ cdataChars t ++ s "]]>"
+  | .cdata t => s "<![CDATA[" ++ cdataCharsEnc r.cdataRepaired r.maxChar t false
   | .raw t => t
   | .comment t => s "<!--" ++ t ++ s "-->"
   | .pi t d =>
